@@ -259,6 +259,25 @@ func VerifH11a() {
 				return p.txEx[t].Commit(ctx)
 			})
 			sameClass(la, lb, id+".late-Commit")
+			// ... and the late reads (no extra paths: all three are issued)
+			ga, gb := both(func(side int) error {
+				var tx fs_db.Tx = p.txIn[t]
+				if side == 1 {
+					tx = p.txEx[t]
+				}
+				_, err := tx.GetKeys(ctx)
+				return err
+			})
+			sameClass(ga, gb, id+".late-GetKeys")
+			ra, rb := both(func(side int) error {
+				var tx fs_db.Tx = p.txIn[t]
+				if side == 1 {
+					tx = p.txEx[t]
+				}
+				_, err := tx.Get(ctx, "a")
+				return err
+			})
+			sameClass(ra, rb, id+".late-Get")
 			p.txIn[t], p.txEx[t] = nil, nil
 		}
 		p.compareReads(id)
